@@ -8,6 +8,8 @@ stdin : JSON {"jobs": [job, ...]}
   scripts: one per PROCESS.  Logical threads: 2p = main thread of process p, 2p+1 = its feeder
   (Queue._feed, started by the first put).  Call ids: 0 q_put(obj=a2, block=a1, timeout=a0)
   1 q_get  3 jq_put  4 jq_task_done  5 jq_join  6 sq_put  7 sq_get   (2 = the feeder itself)
+  A message a2 >= 1000 of q_put / jq_put is put as an object that cannot be pickled.  A timed get
+  reads the logical clock (`deadline - monotonic()`): the schedule decides whether its deadline has passed.
 stdout: last line JSON {"records": [...], "truncated": [...]}
   record: kind maxsize scripts sched events callidx results fins vals pipe bufs pend end
 """
@@ -82,11 +84,11 @@ class World:
         to = TIMEOUT if a0 else None
         blk = bool(a1)
         if cid == 0:
-            return cl.q_put(q, a2, blk, to)
+            return cl.q_put(q, c16_fakes.message(a2), blk, to)
         if cid == 1:
             return cl.q_get(q, blk, to)
         if cid == 3:
-            return cl.jq_put(q, a2, blk, to)
+            return cl.jq_put(q, c16_fakes.message(a2), blk, to)
         if cid == 4:
             return cl.jq_task_done(q)
         if cid == 5:
